@@ -19,8 +19,8 @@ WTARGET = os.path.join(R.CACHE, 'witness-target' + _sfx)
 CASES = [
     (r'k\.atomic', r'.*', ['atomic']),
     (r'k\.atomic_bv', r'.*', ['bitvec_stale', 'bitvec_ops']),
-    (r'select(9|_small)?\.lookup.*', r'.*', ['select_all', 'select_inv']),
-    (r'k\.select_small_complete|select\..*', r'.*', ['select_all']),
+    (r'select(9|_small|_zero_small)?\.lookup.*', r'.*', ['select_all', 'select_inv']),
+    (r'k\.select_(zero_)?small_complete|select\..*', r'.*', ['select_all']),
     (r'k\.bfv_unaligned', r'.*', ['bfv_unaligned']),
     (r'k\.bfv_apply', r'.*', ['bfv_apply']),
     (r'k\.rank_small.*', r'.*', ['rank_all']),
